@@ -7,11 +7,12 @@ import glob
 cfg = {os.path.basename(p)[:-5]: json.load(open(p)) for p in sorted(glob.glob(os.path.join(V, "checks.d", "*.json")))}
 props = [json.loads(l) for l in open(os.path.join(V, "properties.jsonl")) if l.strip()]
 not_claimed = json.load(open(os.path.join(V, "not_claimed.json"))) if os.path.exists(os.path.join(V, "not_claimed.json")) else {}
+claimed_ids = set(open(os.path.join(V, 'claimed.txt')).read().split())
 checks, na = [], []
 for p in props:
     pid = p["id"]
     c = cfg.get(pid)
-    if c and c.get("claimed", True):
+    if c and pid in claimed_ids:
         m = c["manifest"]
         checks.append({
             "property_id": pid,
